@@ -1039,7 +1039,7 @@ def run(ctx) -> None:
         run_cmac_all_lengths(ctx, b'\xff' * 16, b'\xff' * 1024)
 
     # -- primitives -----------------------------------------------------------
-    ctx.hyp('e', lambda c: run_e_case(ctx, *c), st.tuples(block16(), block16()), max_examples=ctx.n(3000, 100000))
+    ctx.hyp('e', lambda c: run_e_case(ctx, *c), st.tuples(block16(), block16()), max_examples=ctx.n(3000, 400000))
     buf = st.one_of(
         st.binary(min_size=1024, max_size=1024),
         st.binary(min_size=1024, max_size=1024),
@@ -1050,13 +1050,13 @@ def run(ctx) -> None:
         'cmac_all_lengths',
         lambda c: run_cmac_all_lengths(ctx, *c),
         st.tuples(block16(), buf),
-        max_examples=ctx.n(60, 1600),
+        max_examples=ctx.n(60, 6400),
     )
     ctx.hyp(
         'cmac_random',
         lambda c: run_cmac_case(ctx, *c),
         st.tuples(block16(), st.binary(min_size=0, max_size=300)),
-        max_examples=ctx.n(1000, 50000),
+        max_examples=ctx.n(1000, 200000),
     )
     if ev.full_builtin_toolbox:
         for fn in sorted(TOOLBOX):
@@ -1064,15 +1064,15 @@ def run(ctx) -> None:
                 'fn_' + fn,
                 lambda c, fn=fn: run_fn_case(ctx, fn, c),
                 TOOLBOX[fn],
-                max_examples=ctx.n(250, 12000),
+                max_examples=ctx.n(250, 48000),
             )
-        ctx.hyp('rpa', lambda c: run_rpa_case(ctx, c), rpa_cases(), max_examples=ctx.n(500, 30000))
+        ctx.hyp('rpa', lambda c: run_rpa_case(ctx, c), rpa_cases(), max_examples=ctx.n(500, 120000))
         # a few with the operating system's entropy, exactly as the stack runs
         ctx.hyp(
             'rpa_system_entropy',
             lambda c: run_rpa_case(ctx, dict(c, entropy=None)),
             rpa_cases(),
-            max_examples=ctx.n(40, 1600),
+            max_examples=ctx.n(40, 3200),
         )
 
     # -- elliptic curve ---------------------------------------------------------
@@ -1081,20 +1081,20 @@ def run(ctx) -> None:
         'invalid_key',
         lambda c: run_invalid_case(ctx, c[0], c[1], *build_invalid(c[0], c[2], c[3])),
         st.tuples(st.sampled_from(INVALID_KINDS), scalars(), u256, u256),
-        max_examples=ctx.n(1500, 24000),
+        max_examples=ctx.n(1500, 96000),
     )
     x0 = weighted((12, u256), (3, st.integers(0, 1 << 32)), (1, st.just(0)))
     ctx.hyp(
         'ecdh_lifted',
         lambda c: run_lifted_case(ctx, *c),
         st.tuples(scalars(), x0, st.booleans()),
-        max_examples=ctx.n(600, 12000),
+        max_examples=ctx.n(600, 48000),
     )
     ctx.hyp(
         'ecdh',
         lambda c: run_ecdh_case(ctx, *c),
         st.tuples(scalars(), scalars()),
-        max_examples=ctx.n(600, 12000),
+        max_examples=ctx.n(600, 64000),
     )
 
     # -- the generator must reach the classes the quantifier names --------------
